@@ -86,6 +86,24 @@ pub fn project_dirs() -> Vec<PathBuf> {
 fn run_one(bin_dir: &Path, tool: &str, target: &Path, extra: bool, kind_hint: &str, w: &mut Worker, scratch: &Path, out: &mut Vec<Value>, n: usize) {
     let outfile = scratch.join(format!("thor_out_{}.json", n));
     let _ = std::fs::remove_file(&outfile);
+    // the file named with -o may exist already (an earlier export): longer than the new document, shorter, or absent
+    let mut preexisting = "none";
+    if tool == "thor" && kind_hint != "noproject" {
+        match (n / 3) % 3 {
+            0 => {
+                let mut old = String::from("{\"meta\": {\"name\": \"exportacion anterior\"}, \"relleno\": \"");
+                old.push_str(&"x".repeat(3_000_000));
+                old.push_str("\"}\n");
+                let _ = std::fs::write(&outfile, old);
+                preexisting = "longer";
+            }
+            1 => {
+                let _ = std::fs::write(&outfile, "{}\n");
+                preexisting = "shorter";
+            }
+            _ => {}
+        }
+    }
     // the library's own answer
     let ctehexml = if target.is_dir() {
         std::fs::read_dir(target).ok().and_then(|rd| rd.filter_map(|e| e.ok()).map(|e| e.path()).find(|p| p.extension().map_or(false, |x| x == "ctehexml")))
@@ -117,7 +135,7 @@ fn run_one(bin_dir: &Path, tool: &str, target: &Path, extra: bool, kind_hint: &s
         Ok(o) => (o.status.code().unwrap_or(-1), String::from_utf8_lossy(&o.stdout).to_string()),
         Err(_) => (-2, String::new()),
     };
-    out.push(json!({"ev": "Start", "tool": tool, "input": input, "extra": extra, "target": target.to_string_lossy(),
+    out.push(json!({"ev": "Start", "tool": tool, "input": input, "extra": extra, "target": target.to_string_lossy(), "preexisting": preexisting,
         "liberr": lib.as_ref().ok().and_then(|v| v["err"].as_str().map(|s| s.chars().take(160).collect::<String>())).unwrap_or_default()}));
     for (kind, text) in chunks(&stdout) {
         let equal = kind == "json" && lib_ok && same_model(&text, &lib_json, &lib_debug);
